@@ -408,7 +408,7 @@ def run(ctx):
     step = 3000
     blocks = [(s, min(len(sp), s + step)) for s in range(0, len(sp), step)]
     res = [None] * len(sp)
-    for block, r in pool.pmap(work, [[b] for b in blocks]):
+    for block, r in pool.pmap(work, [[b] for b in blocks], nproc=8 if ctx.quick else None):
         if isinstance(r, (pool.WorkerError, pool.Crash)):
             raise InfraError("worker failed: %r" % (r,))
         start, out, hist = r
